@@ -227,7 +227,8 @@ def observed_form(value):
         return ['fig', value.axes[0].get_title() if value.axes else None]
     if isinstance(value, Path):
         if value.is_dir():
-            return {'__dir__': {str(p.relative_to(value)): p.read_bytes().decode('latin-1') for p in sorted(value.rglob('*')) if p.is_file()}}
+            return {'__dir__': {str(p.relative_to(value)): p.read_bytes().decode('latin-1') for p in sorted(value.rglob('*')) if p.is_file()},
+                    '__subdirs__': sorted(str(p.relative_to(value)) for p in value.rglob('*') if p.is_dir())}
         return ['path', str(value)]
     if callable(value) and getattr(value, '__name__', '') == '<lambda>' and 'taskchain' in getattr(value, '__module__', ''):
         return ['lazy', list(value())]    # GeneratedDataLazy hands out a reader lambda
@@ -280,7 +281,9 @@ def expected_vdigest(kind: str, h: str) -> str:
     if kind == 'lazy':
         return H(tcanon(['lazy', v]))
     if kind in ('dir', 'continues', 'empty_dir', 'dir_link'):
-        return H(tcanon({'__dir__': v}))
+        # sub-directories are part of a directory value, also empty ones (`dir_link` results hold an empty `rejected/`)
+        subdirs = sorted({'/'.join(n.split('/')[:i]) for n in v for i in range(1, len(n.split('/')))} | ({'rejected'} if kind == 'dir_link' else set()))
+        return H(tcanon({'__dir__': v, '__subdirs__': subdirs}))
     if kind == 'memory':
         return H(tcanon(['mem', v]))
     return H(tcanon(v))
@@ -410,6 +413,7 @@ def lab_run(task, spec, args):
         blob = Path(task.get_config().base_dir) / 'shared_blob.txt'
         if not blob.exists():
             blob.write_text(value['ext_link.txt'])
+        (data.dir / 'rejected').mkdir(exist_ok=True)        # an empty sub-directory belongs to the result
         link = data.dir / 'ext_link.txt'
         if not link.is_symlink():
             os.symlink(os.path.relpath(blob, data.dir), link)      # the work dir and the final dir are siblings: the relative link stays valid
